@@ -19,6 +19,8 @@ Decided structurally (for all histories of runs at once):
         loader method into a class-level / module-level container that the loader also reads must have the loader's checker
         (the object or its hash) in its key; otherwise code instrumented for one typechecker is handed to a hook installed with
         another -- and then written to the other hook's cache tag on disk.
+  C18.9 nothing run while a hooked module is compiled reads the config object or the environment: such a setting selects what is
+        compiled but is not part of the cache tag.
 Not decided: importlib's own cache validation (trusted base).
 """
 from __future__ import annotations
@@ -408,6 +410,28 @@ def check_nothing_imported_while_compiling(ctx):
                         if execs:
                             ctx.bad("C18.7", f, c, f"`{short(c, 40)}` calls code generated with `{short(execs[0], 40)}` in {owner.qualname} while importlib's cache_from_source carries the "
                                     "instrumented tag: what that code imports (the typechecker's own package and its imports) is cached un-instrumented under the instrumented tag")
+    # C18.9: what the compiled code is depends only on the source and on the loader's typechecker -- the two things the cache tag and
+    # importlib's own validation cover.  A process setting read while compiling (the disable switch, an environment variable) is an input
+    # the tag does not carry: bytecode compiled under one value is reused under another
+    n_set = 0
+    for q, f in sorted(fns.items()):
+        for x in ast.walk(f.node):
+            hit = None
+            if isinstance(x, ast.Attribute) and isinstance(x.ctx, ast.Load) and isinstance(x.value, ast.Name):
+                b_ = m.resolve_name(f, x.value.id)
+                if b_.kind == "modvar" and b_.target[0].short == "_config":
+                    hit = norm(x)
+            if isinstance(x, ast.Attribute) and norm(x) == "os.environ":
+                hit = "os.environ"
+            if isinstance(x, ast.Call) and norm(x.func) in ("os.getenv", "os.environ.get"):
+                hit = norm(x.func)
+            if hit:
+                n_set += 1
+                ctx.bad("C18.9", f, x, f"`{hit}` is read while a hooked module is compiled (source_to_code runs inside the patched region of get_code): what ends up in the cache file "
+                        "under this hook's tag depends on a setting that is not part of the tag, so a later run with another value reuses bytecode that does not fit it",
+                        construct=f"setting read while compiling: {hit}")
+    if not n_set:
+        ctx.ok("C18.9", s2c.qualname, f"none of the {len(fns)} functions run while compiling reads the config object or the environment")
     ctx.counters["calls_under_the_tag"] = n_calls
     ctx.ok("C18.7", s2c.qualname, f"{len(fns)} functions run from source_to_code (inside the patched region of get_code), {n_calls} calls: none imports / executes a module named at run time")
 
